@@ -825,10 +825,12 @@ class CellsImpl(*_cells_impl_base):
             self.input_keys.add(key)
             if self.system._recalc_dependents:
                 for trg in targets:
-                    if trg[OBJ].interface._is_valid():
+                    itf = trg[OBJ].interface
+                    if itf._is_valid() and itf._impl is trg[OBJ]:
                         trg[OBJ].get_value_from_key(trg[KEY])
                     # else: it was in an ItemSpace that the assignment
-                    # has just discarded
+                    # has just discarded (whose interface a re-created
+                    # ItemSpace may have taken over already)
 
     def _store_value(self, key, value):
 
